@@ -162,13 +162,12 @@ def mergeRead (v : ResizeV) (w : SdV) (P : Params) (ch : Tb) (m : Unique.Wire) :
     m.xs.foldl (insertHash v P) c2
 
 /-- executable well-formedness: the right number of slots, itemsCount = occupied slots (+1 for zero), and every stored
-    value is found by the probe that insertImpl runs (reachable from its home slot without crossing an empty slot) -/
+    value is found AT ITS SLOT by the probe that insertImpl runs (reachable from its home slot without crossing an empty
+    slot, and stored once) -/
 def occupied (t : Tb) : Nat := (t.buf.toList.filter (fun x => x != 0)).length
 
 def findsAll (P : Params) (t : Tb) : Bool :=
-  t.buf.toList.all (fun x => x == 0 || (match probe t x (size t) (place P t x) with
-    | some p => get t p == x
-    | none => false))
+  (List.range (size t)).all (fun i => get t i == 0 || probe t (get t i) (size t) (place P t (get t i)) == some i)
 
 def wfb (P : Params) (t : Tb) : Bool :=
   if !t.alloc then t.buf.size == 0 && t.cnt == 0 else
